@@ -203,7 +203,7 @@ Fixpoint ylex_fuel (fuel : nat) (s : list Ascii.ascii) : option (list ytoken) :=
         | Some (t, r') => match ylex_fuel f r' with Some ts => Some ((number_name s, t) :: ts) | None => None end
         | None => None
         end
-      else if (n =? 120)%nat then cons ("MONOMIAL", TX)
+      else if is_var n then cons ("MONOMIAL", TX)
       else if (n =? 43)%nat then cons ("PLUS", TPlus)
       else if (n =? 45)%nat then cons ("MINUS", TMinus)
       else if (n =? 105)%nat then cons ("IMAGINARY_UNIT", TI)
